@@ -190,7 +190,8 @@ def run(rep):
                                     for e in nst:
                                         vals = [(cq.int_eval(cnd, envv), t) for cnd, t in e.conds]
                                         if any(v is None for v, _t in vals):
-                                            und_ = f"test outside the integer vocabulary: {show(e.conds[0][0])[:60]}"
+                                            badc_ = [cnd for (cnd, _t2), (v, _t) in zip(e.conds, vals) if v is None]
+                                            und_ = f"test outside the integer vocabulary: {show(badc_[0])[:80]}"
                                             continue
                                         if all(bool(v) == t for v, t in vals):
                                             live.append(e)
